@@ -118,6 +118,7 @@ func c03(r *ev.Result, tier string) {
 	} else {
 		c03PrefixStress(r, 1500)
 	}
+	c03ZeroReads(r)
 	quietSpell(r, "C03")
 	/* The terminal seam: the real Shell on a pty shows exactly what the
 	operator channel carries, in order, however far behind it is. */
